@@ -95,3 +95,16 @@ def norm(e: ast.AST | str | None) -> str:
 
 
 __all__ = ["AnalysisError", "Ctx", "Finding", "RuleResult", "rule", "REGISTRY", "norm"]
+
+
+def anchor_files(prop: str) -> set[str]:
+    """Anchor files of a property, read from the given properties.jsonl (scope for generic rules)."""
+    import json
+    import os
+
+    here = os.path.dirname(os.path.dirname(os.path.abspath(__file__)))
+    for line in open(os.path.join(here, "properties.jsonl")):
+        p = json.loads(line)
+        if p["id"] == prop:
+            return set(p["anchors"]["files"])
+    raise AnalysisError(f"property {prop} not in properties.jsonl")
